@@ -224,7 +224,7 @@ ENTITY_NUMS = ["1", "2", "3", "9", "99", "0", "-1", "1-3", "5-7", "none", "77", 
 BASE = [(n, t) for n, t in S.BLOCKS if n not in ("include", "include_missing", "empty", "end_only", "surface_dl")]
 
 
-# shipped databases that load in < 20 ms (release build); the blocks are written for small.dat, so on these many
+# shipped databases that load in < 20 ms (release build), drawn for about 4 cases in 10; the blocks are written for small.dat, so on these many
 # species/phases/exchangers are "unknown" - which is a class the property names.  Concrete_PHR/PZ fail to load.
 DATABASES = ["phreeqc.dat", "pitzer.dat", "ColdChem.dat", "frezchem.dat", "Amm.dat", "minimum.dat", "wateq4f.dat", "Tipping_Hurley.dat",
              "Kinec_v3.dat", "phreeqc_rates.dat", "core10.dat", "Concrete_PHR.dat", "Concrete_PZ.dat"]
